@@ -662,7 +662,8 @@ def flags_and_timestamps(ctx, report, R4='C11.R4', R5='C11.R5'):
     try:
         for size, ms in ((4, False), (8, False), (8, True)):
             sentinel = (1 << (8 * size)) - 1
-            for seconds, millis in ((0, 0), (1, 0), (86399, 999), (1710000000, 123), (0x7fffffff, 1), (0xfffffffe, 999)):
+            for seconds, millis in ((0, 0), (1, 0), (86399, 999), (1710000000, 123), (0x7fffffff, 1), (0xfffffffe, 999)) + \
+                    (((0xffffffff, 0), (0x100000005, 7), (0x3ffffffff, 500)) if size == 8 else ()):   # 8 byte fields reach past 2106
                 report.count(R5)
                 inst = Instant(seconds, millis if ms else 0, offset=(0, 7200, -19800)[(seconds + size) % 3])
                 me = State()
